@@ -480,14 +480,15 @@ theorem XItem.tagOk_of_rep {H : Hints} {t : XItem} (h : t.representable H = true
 
 /-- the cursor `Next` leaves on a token stream (for a reader that may advance). -/
 def after : List Tok → XCur
-  | [] => ⟨none, []⟩
-  | .start n a :: r => ⟨some (n, a), r⟩
-  | .stop :: r => ⟨none, r⟩
+  | [] => ⟨none, [], false⟩
+  | .start n a :: r => ⟨some (n, a), r, false⟩
+  | .stop :: r => ⟨none, r, false⟩
 
-theorem next_noskip {c : XCur} (h : c.ty = 0 ∨ c.ty = 1) (hne : c.rest ≠ [] ∨ c.elem.isSome = true) :
-    c.next = .ok (after c.rest) := by
+theorem next_noskip {c : XCur} (h : c.ty = 0 ∨ (c.ty = 1 ∧ c.entered = true))
+    (hne : c.rest ≠ [] ∨ c.elem.isSome = true) : c.next = .ok (after c.rest) := by
   unfold XCur.next
-  have : (c.ty != 0 && c.ty != 1) = false := by rcases h with h | h <;> simp [h]
+  have : (c.ty != 0 && (c.ty != 1 || !c.entered)) = false := by
+    rcases h with h | ⟨h, he⟩ <;> simp [h, *]
   rw [this]
   simp only [Bool.false_eq_true, if_false, Res.ok_bind]
   cases hr : c.rest with
@@ -500,7 +501,7 @@ theorem next_noskip {c : XCur} (h : c.ty = 0 ∨ c.ty = 1) (hne : c.rest ≠ [] 
 theorem next_scalar {c : XCur} (h0 : c.ty ≠ 0) (h1 : c.ty ≠ 1) (he : c.elem.isSome = true) {rest : List Tok}
     (hr : c.rest = .stop :: rest) : c.next = .ok (after rest) := by
   unfold XCur.next
-  have : (c.ty != 0 && c.ty != 1) = true := by simp [h0, h1]
+  have : (c.ty != 0 && (c.ty != 1 || !c.entered)) = true := by simp [h0, h1]
   rw [this, hr]
   simp only [if_true, skip, Res.ok_bind]
   cases rest with
@@ -548,8 +549,8 @@ theorem unpack_ne_TTLV {n : Nat} (f : CleanFacts n) : (unpack n != sTTLV) = true
 
 /-- `Tag()` of a written start element is the tag. -/
 theorem tag_xmlStart (T : Tables) (hT : T.WF) (ty : Nat) {tag : Int} (htag : tagOk tag = true)
-    (val : Option Str) (r : List Tok) :
-    XCur.tag T ⟨some (xmlStart T ty tag val), r⟩ = tag := by
+    (val : Option Str) (r : List Tok) (b : Bool := false) :
+    XCur.tag T ⟨some (xmlStart T ty tag val), r, b⟩ = tag := by
   have ⟨h0, h1⟩ := tagOk_iff.mp htag
   have h24 : tag.toNat < 2 ^ 24 := by simp; omega
   have hrt := tag_roundtrip hT.tags hT.tagsClean h24
@@ -576,8 +577,8 @@ theorem attr_sType_tyval (ty : Nat) (val : Option Str) :
 
 /-- `Type()` of a written start element is the announced type. -/
 theorem ty_xmlStart (T : Tables) (hT : T.WF) {ty : Nat} (hty1 : 1 ≤ ty) (hty : ty < 11) {tag : Int}
-    (htag : tagOk tag = true) (val : Option Str) (r : List Tok) :
-    XCur.ty ⟨some (xmlStart T ty tag val), r⟩ = ty := by
+    (htag : tagOk tag = true) (val : Option Str) (r : List Tok) (b : Bool := false) :
+    XCur.ty ⟨some (xmlStart T ty tag val), r, b⟩ = ty := by
   have hfin : (match (if ty == 1 then none else some (typeName ty) : Option Str) with
       | some s => (typeFromName s).getD typeInvalid
       | none => 1) = ty := by
@@ -608,12 +609,12 @@ theorem value_xmlStart (T : Tables) (hT : T.WF) {ty : Nat} {tag : Int} (htag : t
 theorem scalar_xmlStart {α : Type} (T : Tables) (hT : T.WF) {ty : Nat} (hty2 : 2 ≤ ty) (hty : ty < 11)
     {tag : Int} (htag : tagOk tag = true) (val : Str) (conv : Str → Res α) {v : α}
     (hconv : conv val = .ok v) (rest : List Tok) :
-    XCur.scalar T ⟨some (xmlStart T ty tag (some val)), .stop :: rest⟩ ty tag conv =
+    XCur.scalar T ⟨some (xmlStart T ty tag (some val)), .stop :: rest, false⟩ ty tag conv =
       .ok (v, after rest) := by
   have htg := tag_xmlStart T hT ty htag (some val) (.stop :: rest)
   have hty' := ty_xmlStart T hT (by omega) hty htag (some val) (.stop :: rest)
   have hv := value_xmlStart T hT (ty := ty) htag val
-  have hn : XCur.next ⟨some (xmlStart T ty tag (some val)), .stop :: rest⟩ = .ok (after rest) :=
+  have hn : XCur.next ⟨some (xmlStart T ty tag (some val)), .stop :: rest, false⟩ = .ok (after rest) :=
     next_scalar (by rw [hty']; omega) (by rw [hty']; omega) rfl rfl
   unfold XCur.scalar
   simp only [htg, hty', ne_eq, not_true_eq_false, if_false, hv, Option.getD_some, hconv, hn,
@@ -623,10 +624,10 @@ theorem scalar_xmlStart {α : Type} (T : Tables) (hT : T.WF) {ty : Nat} (hty2 : 
 
 theorem toks_xmlScalar (T : Tables) (ty : Nat) (tag : Int) (val : Str) (rest : List Tok) :
     after ((xmlScalar T ty tag val).toks ++ rest) =
-      ⟨some (xmlStart T ty tag (some val)), .stop :: rest⟩ := by
+      ⟨some (xmlStart T ty tag (some val)), .stop :: rest, false⟩ := by
   simp [xmlScalar, XElem.toks, XElem.toksList, after]
 
-theorem drain_none (f : Nat) (r : List Tok) : drain (f + 1) ⟨none, r⟩ = .ok ⟨none, r⟩ := rfl
+theorem drain_none (f : Nat) (r : List Tok) : drain (f + 1) ⟨none, r, false⟩ = .ok ⟨none, r, false⟩ := rfl
 
 theorem tag_after_stop (T : Tables) (rest : List Tok) : XCur.tag T (after (.stop :: rest)) = 0 := by
   simp [after, XCur.tag, XCur.rawTag, tagFromText]
@@ -638,7 +639,7 @@ include hT hR
 /-- the generic decoder on a scalar element written by the XML writer. -/
 theorem xDecodeValue_scalar (t : XItem) (hns : t.ty ≠ 1) (f : Nat) (rest : List Tok)
     (hr : t.representable H = true) :
-    xDecodeValue T R H (f + 1) ⟨some (xmlStart T t.ty t.tag (some (xmlValue T R t))), .stop :: rest⟩ t.tag =
+    xDecodeValue T R H (f + 1) ⟨some (xmlStart T t.ty t.tag (some (xmlValue T R t))), .stop :: rest, false⟩ t.tag =
       .ok (t, after rest) := by
   have htag := XItem.tagOk_of_rep hr
   cases t with
@@ -723,11 +724,11 @@ mutual
       have htag := hr.1
       have hsz : XItem.sizeList cs ≤ f := by simp [XItem.size] at hf; omega
       have hc : after ((xmlWrite T R (.struct tag cs)).toks ++ rest) =
-          ⟨some (xmlStart T 1 tag none), XElem.toksList (xmlWriteList T R cs) ++ .stop :: rest⟩ := by
+          ⟨some (xmlStart T 1 tag none), XElem.toksList (xmlWriteList T R cs) ++ .stop :: rest, false⟩ := by
         simp [xmlWrite, XElem.toks, after]
       rw [hc, xDecodeValue, ty_xmlStart T hT (by decide) (by decide) htag]
       simp only [XItem.tag, tag_xmlStart T hT 1 htag, ne_eq, not_true_eq_false, if_false]
-      have hn1 : XCur.next ⟨none, XElem.toksList (xmlWriteList T R cs) ++ .stop :: rest⟩ =
+      have hn1 : XCur.next ⟨none, XElem.toksList (xmlWriteList T R cs) ++ .stop :: rest, false⟩ =
           .ok (after (XElem.toksList (xmlWriteList T R cs) ++ .stop :: rest)) :=
         next_noskip (Or.inl rfl) (Or.inl (by simp))
       rw [hn1]
@@ -736,8 +737,8 @@ mutual
       simp only [Res.ok_bind]
       rw [drain_none]
       simp only [Res.ok_bind]
-      have hn2 : XCur.next ⟨some (xmlStart T 1 tag none), rest⟩ = .ok (after rest) :=
-        next_noskip (Or.inr (ty_xmlStart T hT (by decide) (by decide) htag none rest)) (Or.inr rfl)
+      have hn2 : XCur.next ⟨some (xmlStart T 1 tag none), rest, true⟩ = .ok (after rest) :=
+        next_noskip (Or.inr ⟨ty_xmlStart T hT (by decide) (by decide) htag none rest true, rfl⟩) (Or.inr rfl)
       rw [hn2]
       rfl
     | .int tag v, fuel, rest, hf, hr => by
@@ -784,7 +785,7 @@ mutual
   theorem xDecodeFields_write : ∀ (cs : List XItem) (fuel : Nat) (rest : List Tok),
       XItem.sizeList cs ≤ fuel → XItem.representableList H cs = true →
       xDecodeFields T R H fuel (after (XElem.toksList (xmlWriteList T R cs) ++ .stop :: rest)) =
-        .ok (cs, ⟨none, rest⟩)
+        .ok (cs, ⟨none, rest, false⟩)
     | [], fuel, rest, hf, _ => by
       obtain ⟨f, rfl⟩ : ∃ f, fuel = f + 1 := ⟨fuel - 1, by simp [XItem.sizeList] at hf; omega⟩
       simp only [xmlWriteList, XElem.toksList, List.nil_append]
@@ -844,7 +845,7 @@ theorem toks_ne_nil (e : XElem) : e.toks ≠ [] := by cases e; simp [XElem.toks]
 theorem xmlRead_write {T : Tables} (hT : T.WF) {R : Rfc3339} (hR : R.Lawful) {H : Hints} (t : XItem)
     (hr : t.representable H = true) : xmlRead T R H (xmlWrite T R t) = .ok t := by
   unfold xmlRead xmlReadToks
-  have hn : XCur.next ⟨none, (xmlWrite T R t).toks⟩ = .ok (after (xmlWrite T R t).toks) :=
+  have hn : XCur.next ⟨none, (xmlWrite T R t).toks, false⟩ = .ok (after (xmlWrite T R t).toks) :=
     next_noskip (Or.inl rfl) (Or.inl (toks_ne_nil _))
   rw [hn]
   simp only [Res.ok_bind]
@@ -1134,5 +1135,562 @@ theorem jsonRead_write {T : Tables} (hT : T.WF) {R : Rfc3339} (hR : R.Lawful) {H
   simp only [jtag_write hT (R := R) t hr []]
   rw [jDecodeValue_write hT hR t _ [] (by have := size_le_jsize T R t; omega) hr]
   rfl
+
+/-! ## 11. what the readers return is normalised (towards C18: alternative lexical forms on input) -/
+
+/-- values of the name ↦ number tables fit 32 bits (they are Go `uint32` / `int32` map values). -/
+structure Tables.Bounded (T : Tables) : Prop where
+  enumVals : ∀ e ∈ T.enums, ∀ p ∈ e.2.2, p.2 < 2 ^ 32
+  maskVals : ∀ m ∈ T.masks, ∀ p ∈ m.2.2, p.2 < 2 ^ 32
+
+mutual
+  /-- every value is in the range of its Go type and every annotation is the reader's hint. -/
+  def XItem.normal (H : Hints) : XItem → Bool
+    | .struct _ cs => XItem.normalList H cs
+    | .int t v => int32Ok v && decide ((H t).mask = none)
+    | .mask t m v => int32Ok v && decide ((H t).mask = some m)
+    | .long _ v => int64Ok v
+    | .enum t e v => decide (v < 4294967296) && decide ((H t).enumTag = e)
+    | .interval _ v => decide (v < 4294967296)
+    | _ => true
+  def XItem.normalList (H : Hints) : List XItem → Bool
+    | [] => true
+    | x :: xs => x.normal H && XItem.normalList H xs
+end
+
+mutual
+  /-- every tag is a 24-bit KMIP tag, every date lies in years 1..9999. -/
+  def XItem.inDomain : XItem → Bool
+    | .struct t cs => tagOk t && XItem.inDomainList cs
+    | .date t v => tagOk t && decide (minEpoch ≤ v) && decide (v ≤ maxEpoch)
+    | x => tagOk x.tag
+  def XItem.inDomainList : List XItem → Bool
+    | [] => true
+    | x :: xs => x.inDomain && XItem.inDomainList xs
+end
+
+mutual
+  theorem rep_of_normal (H : Hints) : ∀ t : XItem, t.normal H = true → t.inDomain = true →
+      t.representable H = true
+    | .struct t cs, hn, hd => by
+      simp only [XItem.normal] at hn
+      simp only [XItem.inDomain, Bool.and_eq_true] at hd
+      simp only [XItem.representable, Bool.and_eq_true]
+      exact ⟨hd.1, repList_of_normal H cs hn hd.2⟩
+    | .int t v, hn, hd => by
+      simp only [XItem.normal, Bool.and_eq_true] at hn
+      simp only [XItem.inDomain, XItem.tag] at hd
+      simp only [XItem.representable, Bool.and_eq_true]; exact ⟨⟨hd, hn.1⟩, hn.2⟩
+    | .mask t m v, hn, hd => by
+      simp only [XItem.normal, Bool.and_eq_true] at hn
+      simp only [XItem.inDomain, XItem.tag] at hd
+      simp only [XItem.representable, Bool.and_eq_true]; exact ⟨⟨hd, hn.1⟩, hn.2⟩
+    | .long t v, hn, hd => by
+      simp only [XItem.normal] at hn
+      simp only [XItem.inDomain, XItem.tag] at hd
+      simp only [XItem.representable, Bool.and_eq_true]; exact ⟨hd, hn⟩
+    | .big t v, _, hd => by
+      simp only [XItem.inDomain, XItem.tag] at hd
+      simp only [XItem.representable]; exact hd
+    | .enum t e v, hn, hd => by
+      simp only [XItem.normal, Bool.and_eq_true] at hn
+      simp only [XItem.inDomain, XItem.tag] at hd
+      simp only [XItem.representable, Bool.and_eq_true]; exact ⟨⟨hd, hn.1⟩, hn.2⟩
+    | .bool t b, _, hd => by
+      simp only [XItem.inDomain, XItem.tag] at hd
+      simp only [XItem.representable]; exact hd
+    | .text t s, _, hd => by
+      simp only [XItem.inDomain, XItem.tag] at hd
+      simp only [XItem.representable]; exact hd
+    | .bytes t s, _, hd => by
+      simp only [XItem.inDomain, XItem.tag] at hd
+      simp only [XItem.representable]; exact hd
+    | .date t v, _, hd => by
+      simp only [XItem.inDomain] at hd
+      simp only [XItem.representable]; exact hd
+    | .interval t v, hn, hd => by
+      simp only [XItem.normal] at hn
+      simp only [XItem.inDomain, XItem.tag] at hd
+      simp only [XItem.representable, Bool.and_eq_true]; exact ⟨hd, hn⟩
+  theorem repList_of_normal (H : Hints) : ∀ cs : List XItem, XItem.normalList H cs = true →
+      XItem.inDomainList cs = true → XItem.representableList H cs = true
+    | [], _, _ => rfl
+    | c :: cs, hn, hd => by
+      simp only [XItem.normalList, Bool.and_eq_true] at hn
+      simp only [XItem.inDomainList, Bool.and_eq_true] at hd
+      simp only [XItem.representableList, Bool.and_eq_true]
+      exact ⟨rep_of_normal H c hn.1 hd.1, repList_of_normal H cs hn.2 hd.2⟩
+end
+
+theorem bind_eq_ok {α β : Type} {x : Res α} {f : α → Res β} {b : β} (h : (x >>= f) = .ok b) :
+    ∃ a, x = .ok a ∧ f a = .ok b := by
+  cases x with
+  | ok a => exact ⟨a, rfl, h⟩
+  | err e => cases h
+  | panic m => cases h
+
+theorem ofOpt_eq_ok {α : Type} {o : Option α} {a : α} (h : ofOpt o = .ok a) : o = some a := by
+  cases o with
+  | none => cases h
+  | some x => simp only [ofOpt, Res.ok.injEq] at h; rw [h]
+
+/-! ### ranges of the numeral parsers -/
+
+theorem parseUint_lt {base bits : Nat} {s : Str} {n : Nat} (h : parseUint base bits s = some n) :
+    n < 2 ^ bits := by
+  unfold parseUint at h
+  split at h
+  · cases h
+  · split at h
+    · split at h
+      · simp only [Option.some.injEq] at h; omega
+      · cases h
+    · cases h
+
+theorem parseInt_range {bits : Nat} {s : Str} {v : Int} (h : parseInt 10 bits s = some v) :
+    -((2 ^ (bits - 1) : Nat) : Int) ≤ v ∧ v < ((2 ^ (bits - 1) : Nat) : Int) := by
+  unfold parseInt at h
+  have hpos : 0 < 2 ^ (bits - 1) := Nat.two_pow_pos _
+  generalize 2 ^ (bits - 1) = B at h hpos ⊢
+  split at h
+  · cases h
+  · dsimp only at h
+    split at h
+    · cases h
+    · split at h
+      · split at h
+        · split at h
+          · simp only [Option.some.injEq] at h; omega
+          · cases h
+        · split at h
+          · simp only [Option.some.injEq] at h; omega
+          · cases h
+      · cases h
+
+theorem signedOfNat64_range {n : Nat} (h : n < 2 ^ 64) : int64Ok (signedOfNat 64 n) = true := by
+  apply int64Ok_iff.mpr
+  unfold signedOfNat
+  have e1 : (2 : Nat) ^ (64 - 1) = 9223372036854775808 := by decide
+  have e2 : (2 : Nat) ^ 64 = 18446744073709551616 := by decide
+  rw [e2] at h
+  split <;> rename_i hh <;> rw [e1] at hh <;> (try rw [e2]) <;> omega
+
+theorem signedOfNat32_range {n : Nat} (h : n < 2 ^ 32) : int32Ok (signedOfNat 32 n) = true := by
+  apply int32Ok_iff.mpr
+  unfold signedOfNat
+  have e1 : (2 : Nat) ^ (32 - 1) = 2147483648 := by decide
+  have e2 : (2 : Nat) ^ 32 = 4294967296 := by decide
+  rw [e2] at h
+  split <;> rename_i hh <;> rw [e1] at hh <;> (try rw [e2]) <;> omega
+
+theorem goParseInt64_range {s : Str} {v : Int} (h : goParseInt 64 s = some v) : int64Ok v = true := by
+  unfold goParseInt at h
+  split at h
+  · rename_i rest
+    cases hp : parseUint 16 64 rest with
+    | none => rw [hp] at h; cases h
+    | some n =>
+      rw [hp] at h
+      simp only [Option.map_some, Option.some.injEq] at h
+      rw [← h]; exact signedOfNat64_range (parseUint_lt hp)
+  · have := parseInt_range h
+    simp at this
+    exact int64Ok_iff.mpr ⟨by omega, by omega⟩
+
+theorem goParseUint32_lt {s : Str} {n : Nat} (h : goParseUint 32 s = some n) : n < 2 ^ 32 := by
+  unfold goParseUint at h
+  split at h <;> exact parseUint_lt h
+
+theorem toInt32_range (p : Int) : int32Ok (toInt32 p) = true :=
+  signedOfNat32_range (unsignedOfInt32_lt p)
+
+theorem toU32_lt (i : Int) : toU32 i < 2 ^ 32 := by
+  unfold toU32; omega
+
+theorem lookup_bound {t : Table} (hb : ∀ p ∈ t, p.2 < 2 ^ 32) {k v : Nat} (h : lookup k t = some v) :
+    v < 2 ^ 32 := hb (k, v) (lookup_mem h)
+
+theorem enumReader_lt {byName : Table} (hb : ∀ p ∈ byName, p.2 < 2 ^ 32) {s : Str} {v : Nat}
+    (h : enumFromTextReader byName s = some v) : v < 2 ^ 32 := by
+  unfold enumFromTextReader at h
+  split at h
+  · exact parseUint_lt h
+  · split at h
+    · rename_i n hn
+      simp only [Option.some.injEq] at h; subst h; exact parseUint_lt hn
+    · exact lookup_bound hb h
+
+theorem maskPart_lt {byName : Table} (hb : ∀ p ∈ byName, p.2 < 2 ^ 32) {tf : Bool} {p : Str} {v : Nat}
+    (h : maskPart tf byName p = some v) : v < 2 ^ 32 := by
+  unfold maskPart at h
+  split at h
+  · exact parseUint_lt h
+  · split at h
+    · simp only [Option.some.injEq] at h; subst h; exact toU32_lt _
+    · exact lookup_bound hb h
+
+theorem maskFold_lt {byName : Table} (hb : ∀ p ∈ byName, p.2 < 2 ^ 32) {tf : Bool} :
+    ∀ (ps : List Str) (acc v : Nat), acc < 2 ^ 32 → maskFold tf byName ps acc = some v → v < 2 ^ 32
+  | [], acc, v, ha, h => by simp only [maskFold, Option.some.injEq] at h; omega
+  | p :: ps, acc, v, ha, h => by
+    simp only [maskFold] at h
+    split at h
+    · rename_i b hb'
+      exact maskFold_lt hb ps _ v (Nat.or_lt_two_pow ha (maskPart_lt hb hb')) h
+    · cases h
+
+theorem Tables.Bounded.enum (h : T.Bounded) (g : Int) : ∀ p ∈ enumByN T g, p.2 < 2 ^ 32 := by
+  unfold enumByN
+  by_cases hg : g < 0
+  · simp [hg]
+  · simp only [hg, if_false]
+    have := enum_forall (ix := T.enums) (P := fun _ bn => ∀ p ∈ bn, p.2 < 2 ^ 32) (by simp) h.enumVals g.toNat
+    exact this
+
+theorem Tables.Bounded.mask (h : T.Bounded) (g : Int) : ∀ p ∈ maskByN T g, p.2 < 2 ^ 32 := by
+  unfold maskByN
+  by_cases hg : g < 0
+  · simp [hg]
+  · simp only [hg, if_false]
+    have := mask_forall (ix := T.masks) (P := fun _ bn => ∀ p ∈ bn, p.2 < 2 ^ 32) (by simp) h.maskVals g.toNat
+    exact this
+
+/-! ### XML conversions return in-range values -/
+
+theorem xInteger_range {s : Str} {v : Int} (h : xInteger s = .ok v) : int32Ok v = true := by
+  unfold xInteger at h
+  split at h
+  · simp only [Res.ok.injEq] at h; subst h; exact toInt32_range _
+  · cases h
+
+theorem xLong_range {s : Str} {v : Int} (h : xLong s = .ok v) : int64Ok v = true :=
+  goParseInt64_range (ofOpt_eq_ok h)
+
+theorem xEnum_range {byName : Table} (hb : ∀ p ∈ byName, p.2 < 2 ^ 32) {s : Str} {v : Nat}
+    (h : xEnum byName s = .ok v) : v < 2 ^ 32 :=
+  enumReader_lt hb (ofOpt_eq_ok h)
+
+theorem xInterval_range {s : Str} {v : Nat} (h : xInterval s = .ok v) : v < 2 ^ 32 :=
+  goParseUint32_lt (ofOpt_eq_ok h)
+
+theorem xMask_range {byName : Table} (hb : ∀ p ∈ byName, p.2 < 2 ^ 32) {s : Str} {v : Int}
+    (h : xMask byName s = .ok v) : int32Ok v = true := by
+  unfold xMask at h
+  split at h
+  · rename_i p hp
+    simp only [Res.ok.injEq] at h; subst h
+    exact signedOfNat32_range (maskFold_lt hb _ 0 p (by decide) hp)
+  · cases h
+
+theorem scalar_inv {α : Type} {T : Tables} {c c' : XCur} {ty : Nat} {tag : Int} {conv : Str → Res α} {v : α}
+    (h : c.scalar T ty tag conv = .ok (v, c')) : ∃ s, conv s = .ok v := by
+  unfold XCur.scalar at h
+  split at h
+  · cases h
+  · split at h
+    · cases h
+    · split at h
+      · cases h
+      · obtain ⟨v', h1, h2⟩ := bind_eq_ok h
+        obtain ⟨c'', _, h3⟩ := bind_eq_ok h2
+        simp only [Res.pure_eq, Res.ok.injEq, Prod.mk.injEq] at h3
+        exact ⟨_, h3.1 ▸ h1⟩
+
+/-- whatever document the XML reader accepts, the tree it returns is normalised. -/
+theorem xDecode_normal {T : Tables} (hB : T.Bounded) {R : Rfc3339} {H : Hints} : ∀ fuel : Nat,
+    (∀ c tag t c', xDecodeValue T R H fuel c tag = .ok (t, c') → t.normal H = true) ∧
+    (∀ c ts c', xDecodeFields T R H fuel c = .ok (ts, c') → XItem.normalList H ts = true) := by
+  intro fuel
+  induction fuel with
+  | zero =>
+    constructor
+    · intro c tag t c' h; simp [xDecodeValue] at h
+    · intro c ts c' h; simp [xDecodeFields] at h
+  | succ fuel ih =>
+    constructor
+    · intro c tag t c' h
+      rw [xDecodeValue] at h
+      split at h
+      · -- Integer / mask
+        split at h
+        · obtain ⟨⟨v, c1⟩, h1, h2⟩ := bind_eq_ok h
+          simp only [Res.pure_eq, Res.ok.injEq, Prod.mk.injEq] at h2
+          obtain ⟨rfl, rfl⟩ := h2
+          obtain ⟨s, hs⟩ := scalar_inv h1
+          rename_i hm
+          simp [XItem.normal, xInteger_range hs, hm]
+        · obtain ⟨⟨v, c1⟩, h1, h2⟩ := bind_eq_ok h
+          simp only [Res.pure_eq, Res.ok.injEq, Prod.mk.injEq] at h2
+          obtain ⟨rfl, rfl⟩ := h2
+          obtain ⟨s, hs⟩ := scalar_inv h1
+          rename_i m hm
+          simp [XItem.normal, xMask_range (hB.mask _) hs, hm]
+      · obtain ⟨⟨v, c1⟩, h1, h2⟩ := bind_eq_ok h
+        simp only [Res.pure_eq, Res.ok.injEq, Prod.mk.injEq] at h2
+        obtain ⟨rfl, rfl⟩ := h2
+        obtain ⟨s, hs⟩ := scalar_inv h1
+        simp [XItem.normal, xLong_range hs]
+      · obtain ⟨⟨v, c1⟩, h1, h2⟩ := bind_eq_ok h
+        simp only [Res.pure_eq, Res.ok.injEq, Prod.mk.injEq] at h2
+        obtain ⟨rfl, rfl⟩ := h2
+        simp [XItem.normal]
+      · obtain ⟨⟨v, c1⟩, h1, h2⟩ := bind_eq_ok h
+        simp only [Res.pure_eq, Res.ok.injEq, Prod.mk.injEq] at h2
+        obtain ⟨rfl, rfl⟩ := h2
+        simp [XItem.normal]
+      · obtain ⟨⟨v, c1⟩, h1, h2⟩ := bind_eq_ok h
+        simp only [Res.pure_eq, Res.ok.injEq, Prod.mk.injEq] at h2
+        obtain ⟨rfl, rfl⟩ := h2
+        simp [XItem.normal]
+      · obtain ⟨⟨v, c1⟩, h1, h2⟩ := bind_eq_ok h
+        simp only [Res.pure_eq, Res.ok.injEq, Prod.mk.injEq] at h2
+        obtain ⟨rfl, rfl⟩ := h2
+        simp [XItem.normal]
+      · obtain ⟨⟨v, c1⟩, h1, h2⟩ := bind_eq_ok h
+        simp only [Res.pure_eq, Res.ok.injEq, Prod.mk.injEq] at h2
+        obtain ⟨rfl, rfl⟩ := h2
+        obtain ⟨s, hs⟩ := scalar_inv h1
+        have := xEnum_range (hB.enum _) hs
+        simp only [XItem.normal, Bool.and_eq_true, decide_eq_true_eq]
+        exact ⟨by simpa using this, trivial⟩
+      · obtain ⟨⟨v, c1⟩, h1, h2⟩ := bind_eq_ok h
+        simp only [Res.pure_eq, Res.ok.injEq, Prod.mk.injEq] at h2
+        obtain ⟨rfl, rfl⟩ := h2
+        obtain ⟨s, hs⟩ := scalar_inv h1
+        have := xInterval_range hs
+        simp only [XItem.normal, decide_eq_true_eq]
+        simpa using this
+      · obtain ⟨⟨v, c1⟩, h1, h2⟩ := bind_eq_ok h
+        simp only [Res.pure_eq, Res.ok.injEq, Prod.mk.injEq] at h2
+        obtain ⟨rfl, rfl⟩ := h2
+        simp [XItem.normal]
+      · -- Structure
+        split at h
+        · cases h
+        · split at h
+          · cases h
+          · obtain ⟨sub, _, h⟩ := bind_eq_ok h
+            obtain ⟨⟨cs, sub'⟩, h2, h⟩ := bind_eq_ok h
+            obtain ⟨sub'', _, h⟩ := bind_eq_ok h
+            obtain ⟨c1, _, h⟩ := bind_eq_ok h
+            simp only [Res.pure_eq, Res.ok.injEq, Prod.mk.injEq] at h
+            obtain ⟨rfl, rfl⟩ := h
+            simp only [XItem.normal]
+            exact ih.2 _ _ _ h2
+      · cases h
+    · intro c ts c' h
+      rw [xDecodeFields] at h
+      split at h
+      · simp only [Res.ok.injEq, Prod.mk.injEq] at h
+        obtain ⟨rfl, rfl⟩ := h
+        rfl
+      · obtain ⟨⟨it, c1⟩, h1, h⟩ := bind_eq_ok h
+        obtain ⟨⟨rest, c2⟩, h2, h⟩ := bind_eq_ok h
+        simp only [Res.pure_eq, Res.ok.injEq, Prod.mk.injEq] at h
+        obtain ⟨rfl, rfl⟩ := h
+        simp only [XItem.normalList, Bool.and_eq_true]
+        exact ⟨ih.1 _ _ _ _ h1, ih.2 _ _ _ h2⟩
+
+theorem xmlReadToks_normal {T : Tables} (hB : T.Bounded) {R : Rfc3339} {H : Hints} {toks : List Tok}
+    {t : XItem} (h : xmlReadToks T R H toks = .ok t) : t.normal H = true := by
+  unfold xmlReadToks at h
+  obtain ⟨c, _, h⟩ := bind_eq_ok h
+  obtain ⟨⟨it, c'⟩, h1, h⟩ := bind_eq_ok h
+  simp only [Res.pure_eq, Res.ok.injEq] at h
+  subst h
+  exact (xDecode_normal hB _).1 _ _ _ _ h1
+
+/-! ### JSON conversions return in-range values -/
+
+theorem inRange_some {lo hi v w : Int} (h : inRange lo hi v = some w) : w = v ∧ lo ≤ v ∧ v ≤ hi := by
+  unfold inRange at h
+  split at h
+  · simp only [Option.some.injEq] at h; exact ⟨h.symm, ‹_›⟩
+  · cases h
+
+theorem bind_inRange {o : Option Int} {lo hi w : Int} (h : o.bind (inRange lo hi) = some w) :
+    lo ≤ w ∧ w ≤ hi := by
+  cases o with
+  | none => cases h
+  | some x =>
+    have := inRange_some (show inRange lo hi x = some w from h)
+    omega
+
+theorem int64OfNum_range {v w : Int} {il : Bool} (h : int64OfNum v il = some w) : int64Ok w = true := by
+  unfold int64OfNum at h
+  split at h
+  · rename_i hc
+    simp only [Option.some.injEq] at h; subst h
+    simp only [Bool.and_eq_true, decide_eq_true_eq] at hc
+    exact int64Ok_iff.mpr ⟨hc.1.2, hc.2⟩
+  · cases h
+
+theorem jInteger_range {j : Option JVal} {v : Int} (h : jInteger j = .ok v) : int32Ok v = true := by
+  unfold jInteger at h
+  split at h
+  · exact int32Ok_iff.mpr (bind_inRange (ofOpt_eq_ok h))
+  · exact int32Ok_iff.mpr (bind_inRange (ofOpt_eq_ok h))
+  · cases h
+
+theorem jLong_range {j : Option JVal} {v : Int} (h : jLong j = .ok v) : int64Ok v = true := by
+  unfold jLong at h
+  split at h
+  · exact int64OfNum_range (ofOpt_eq_ok h)
+  · exact goParseInt64_range (ofOpt_eq_ok h)
+  · cases h
+
+theorem map_toNat_lt {o : Option Int} {n : Nat} (h : (o.bind (inRange 0 4294967295)).map Int.toNat = some n) :
+    n < 2 ^ 32 := by
+  cases hb : o.bind (inRange 0 4294967295) with
+  | none => rw [hb] at h; cases h
+  | some w =>
+    rw [hb] at h
+    simp only [Option.map_some, Option.some.injEq] at h
+    have := bind_inRange hb
+    simp; omega
+
+theorem jEnum_range {byName : Table} (hb : ∀ p ∈ byName, p.2 < 2 ^ 32) {j : Option JVal} {v : Nat}
+    (h : jEnum byName j = .ok v) : v < 2 ^ 32 := by
+  unfold jEnum at h
+  split at h
+  · exact map_toNat_lt (ofOpt_eq_ok h)
+  · exact enumReader_lt hb (ofOpt_eq_ok h)
+  · cases h
+
+theorem jInterval_range {j : Option JVal} {v : Nat} (h : jInterval j = .ok v) : v < 2 ^ 32 := by
+  unfold jInterval at h
+  split at h
+  · exact map_toNat_lt (ofOpt_eq_ok h)
+  · exact goParseUint32_lt (ofOpt_eq_ok h)
+  · cases h
+
+theorem jMask_range {byName : Table} (hb : ∀ p ∈ byName, p.2 < 2 ^ 32) {j : Option JVal} {v : Int}
+    (h : jMask byName j = .ok v) : int32Ok v = true := by
+  unfold jMask at h
+  split at h
+  · exact int32Ok_iff.mpr (bind_inRange (ofOpt_eq_ok h))
+  · rename_i s
+    have h' := ofOpt_eq_ok h
+    cases hm : maskFromTextJson byName s with
+    | none => rw [hm] at h'; cases h'
+    | some p =>
+      rw [hm] at h'
+      simp only [Option.map_some, Option.some.injEq] at h'
+      subst h'
+      exact signedOfNat32_range (maskFold_lt hb _ 0 p (by decide) hm)
+  · cases h
+
+theorem jscalar_inv {α : Type} {T : Tables} {c c' : JCur} {ty : Nat} {tag : Int}
+    {conv : Option JVal → Res α} {v : α} (h : c.scalar T ty tag conv = .ok (v, c')) : ∃ j, conv j = .ok v := by
+  unfold JCur.scalar at h
+  split at h
+  · cases h
+  · split at h
+    · cases h
+    · split at h
+      · cases h
+      · obtain ⟨v', h1, h2⟩ := bind_eq_ok h
+        simp only [Res.pure_eq, Res.ok.injEq, Prod.mk.injEq] at h2
+        exact ⟨_, h2.1 ▸ h1⟩
+
+/-- whatever document the JSON reader accepts, the tree it returns is normalised. -/
+theorem jDecode_normal {T : Tables} (hB : T.Bounded) {R : Rfc3339} {H : Hints} : ∀ fuel : Nat,
+    (∀ c tag t c', jDecodeValue T R H fuel c tag = .ok (t, c') → t.normal H = true) ∧
+    (∀ c ts, jDecodeFields T R H fuel c = .ok ts → XItem.normalList H ts = true) := by
+  intro fuel
+  induction fuel with
+  | zero =>
+    constructor
+    · intro c tag t c' h; simp [jDecodeValue] at h
+    · intro c ts h; simp [jDecodeFields] at h
+  | succ fuel ih =>
+    constructor
+    · intro c tag t c' h
+      rw [jDecodeValue] at h
+      split at h
+      · split at h
+        · obtain ⟨⟨v, c1⟩, h1, h2⟩ := bind_eq_ok h
+          simp only [Res.pure_eq, Res.ok.injEq, Prod.mk.injEq] at h2
+          obtain ⟨rfl, rfl⟩ := h2
+          obtain ⟨s, hs⟩ := jscalar_inv h1
+          rename_i hm
+          simp [XItem.normal, jInteger_range hs, hm]
+        · obtain ⟨⟨v, c1⟩, h1, h2⟩ := bind_eq_ok h
+          simp only [Res.pure_eq, Res.ok.injEq, Prod.mk.injEq] at h2
+          obtain ⟨rfl, rfl⟩ := h2
+          obtain ⟨s, hs⟩ := jscalar_inv h1
+          rename_i m hm
+          simp [XItem.normal, jMask_range (hB.mask _) hs, hm]
+      · obtain ⟨⟨v, c1⟩, h1, h2⟩ := bind_eq_ok h
+        simp only [Res.pure_eq, Res.ok.injEq, Prod.mk.injEq] at h2
+        obtain ⟨rfl, rfl⟩ := h2
+        obtain ⟨s, hs⟩ := jscalar_inv h1
+        simp [XItem.normal, jLong_range hs]
+      · obtain ⟨⟨v, c1⟩, h1, h2⟩ := bind_eq_ok h
+        simp only [Res.pure_eq, Res.ok.injEq, Prod.mk.injEq] at h2
+        obtain ⟨rfl, rfl⟩ := h2
+        simp [XItem.normal]
+      · obtain ⟨⟨v, c1⟩, h1, h2⟩ := bind_eq_ok h
+        simp only [Res.pure_eq, Res.ok.injEq, Prod.mk.injEq] at h2
+        obtain ⟨rfl, rfl⟩ := h2
+        simp [XItem.normal]
+      · obtain ⟨⟨v, c1⟩, h1, h2⟩ := bind_eq_ok h
+        simp only [Res.pure_eq, Res.ok.injEq, Prod.mk.injEq] at h2
+        obtain ⟨rfl, rfl⟩ := h2
+        simp [XItem.normal]
+      · obtain ⟨⟨v, c1⟩, h1, h2⟩ := bind_eq_ok h
+        simp only [Res.pure_eq, Res.ok.injEq, Prod.mk.injEq] at h2
+        obtain ⟨rfl, rfl⟩ := h2
+        simp [XItem.normal]
+      · obtain ⟨⟨v, c1⟩, h1, h2⟩ := bind_eq_ok h
+        simp only [Res.pure_eq, Res.ok.injEq, Prod.mk.injEq] at h2
+        obtain ⟨rfl, rfl⟩ := h2
+        obtain ⟨s, hs⟩ := jscalar_inv h1
+        have := jEnum_range (hB.enum _) hs
+        simp only [XItem.normal, Bool.and_eq_true, decide_eq_true_eq]
+        exact ⟨by simpa using this, trivial⟩
+      · obtain ⟨⟨v, c1⟩, h1, h2⟩ := bind_eq_ok h
+        simp only [Res.pure_eq, Res.ok.injEq, Prod.mk.injEq] at h2
+        obtain ⟨rfl, rfl⟩ := h2
+        obtain ⟨s, hs⟩ := jscalar_inv h1
+        have := jInterval_range hs
+        simp only [XItem.normal, decide_eq_true_eq]
+        simpa using this
+      · obtain ⟨⟨v, c1⟩, h1, h2⟩ := bind_eq_ok h
+        simp only [Res.pure_eq, Res.ok.injEq, Prod.mk.injEq] at h2
+        obtain ⟨rfl, rfl⟩ := h2
+        simp [XItem.normal]
+      · split at h
+        · cases h
+        · split at h
+          · cases h
+          · split at h
+            · obtain ⟨cs, h2, h⟩ := bind_eq_ok h
+              simp only [Res.pure_eq, Res.ok.injEq, Prod.mk.injEq] at h
+              obtain ⟨rfl, rfl⟩ := h
+              simp only [XItem.normal]
+              exact ih.2 _ _ h2
+            · cases h
+      · cases h
+    · intro c ts h
+      rw [jDecodeFields] at h
+      split at h
+      · simp only [Res.ok.injEq] at h
+        subst h
+        rfl
+      · obtain ⟨⟨it, c1⟩, h1, h⟩ := bind_eq_ok h
+        obtain ⟨rest, h2, h⟩ := bind_eq_ok h
+        simp only [Res.pure_eq, Res.ok.injEq] at h
+        subst h
+        simp only [XItem.normalList, Bool.and_eq_true]
+        exact ⟨ih.1 _ _ _ _ h1, ih.2 _ _ h2⟩
+
+theorem jsonRead_normal {T : Tables} (hB : T.Bounded) {R : Rfc3339} {H : Hints} {j : JVal}
+    {t : XItem} (h : jsonRead T R H j = .ok t) : t.normal H = true := by
+  unfold jsonRead at h
+  obtain ⟨⟨it, c'⟩, h1, h⟩ := bind_eq_ok h
+  simp only [Res.pure_eq, Res.ok.injEq] at h
+  subst h
+  exact (jDecode_normal hB _).1 _ _ _ _ h1
 
 end Kmip.Lex
